@@ -189,6 +189,63 @@ def mphys_groups(rep, tier, timeout):
         obs.append(oblig.Ob("wrapper contains the native state components (compressible=%s)" % compressible, cond=S(len(missing)) != 0 if False else __import__("symoas.sym", fromlist=["ne"]).ne(S(len(missing)), 0),
                             meta={"family": "MPhys solver group contains every component of the native states group", "missing": missing}))
     run_obligations(rep, "MPhys wrapper structure", obs, timeout, family=lambda ob: "MPhys: " + ob.meta["family"], cut_threshold=0)
+    # the wrapper executed through its own wiring returns the native residual and forces for the same meshes, flow and circulations
+    import warnings
+
+    from symoas import kernels
+    from symoas.sym import symarray, var, ZERO
+
+    prob = om.Problem(reports=False)
+    ivc = om.IndepVarComp()
+    for x in ss:
+        ivc.add_output(x["name"] + "_def_mesh", val=x["mesh"], units="m")
+    prob.model.add_subsystem("meshes", ivc, promotes=["*"])
+    prob.model.add_subsystem("w", AeroSolverGroup(surfaces=ss, compressible=False), promotes=["*"])
+    from mphys.core import MPhysVariables as MV
+    prob.model.set_input_defaults(MV.Aerodynamics.FlowConditions.ANGLE_OF_ATTACK, val=3.0, units="deg")
+    prob.model.set_input_defaults(MV.Aerodynamics.FlowConditions.YAW_ANGLE, val=0.0, units="deg")
+    with warnings.catch_warnings():
+        warnings.simplefilter("ignore")
+        prob.setup()
+        prob.final_setup()
+    GP = pipe.GroupPipe(prob, extra=kernels.EVAL_MTX_STUBS)
+    meshes = {x["name"]: symarray(x["name"] + "_def_mesh", x["mesh"].shape) for x in ss}
+    for x in ss:
+        if x["symmetry"]:
+            for i in range(x["mesh"].shape[0]):
+                meshes[x["name"]][i, x["mesh"].shape[1] - 1, 1] = ZERO
+    npan = sum((x["mesh"].shape[0] - 1) * (x["mesh"].shape[1] - 1) for x in ss)
+    gam = symarray("circulations", (npan,))
+    ext = {n + "_def_mesh": m for n, m in meshes.items()}
+    GP.run(external=ext, states={"circulations": gam})
+    GP.encode(rep)
+    created = {}
+    for k, arr in GP.vals.items():
+        created[GP.prom_out.get(k, k)] = arr
+    P = pipe.vlm_states(ss)
+    given = {n + "_def_mesh": m for n, m in meshes.items()}
+    given["circulations"] = gam
+    # the wrapper's flow inputs carry MPhys names; feed the native chain with the very same symbols
+    byname = {}
+    for absn, arr in GP.vals.items():
+        if absn.startswith("_auto_ivc"):
+            ins_ = [a for a, src in GP.conn.items() if src == absn]
+            for a in ins_:
+                byname[a.split(".")[-1]] = (arr, GP.meta_out[absn].get("units"))
+    units = {}
+    for nm in ("alpha", "beta", "v", "rho"):
+        if nm in byname:
+            given[nm], units[nm] = byname[nm]
+    ns, _ = P.run(given, units=units)
+    obs = []
+    R = [v for k, v in GP.resid.items() if k.endswith("circulations")][0]
+    for r in range(npan):
+        nat = sum((ns["mtx"][r, c] * gam[c] for c in range(npan)), ZERO) - ns["rhs"][r]
+        obs.append(oblig.Ob("wrapper residual[%d]" % r, lhs=S(R[r]), rhs=nat, meta={"family": "MPhys solver group solves the native VLM system"}))
+    for x in ss:
+        obs += idents("wrapper %s sec_forces" % x["name"], GP.get(x["name"] + ".sec_forces") if (x["name"] + ".sec_forces") in created else GP.get(x["name"] + "_sec_forces"),
+                      ns[x["name"] + "_sec_forces"], meta={"family": "MPhys solver group returns the native sectional forces"})
+    run_obligations(rep, "MPhys AeroSolverGroup vs native states", obs, timeout, levels=(1, 2), family=lambda ob: "MPhys: " + ob.meta["family"])
 
 
 def run(tier, seed, only=None):
